@@ -191,6 +191,22 @@ macro_rules! combo {
             Err(e) => format!("err {}", e),
           }));
           $sink.count("direct:json");
+          // tie to the token model: the JSON document reduced to its token stream in the ASCII token syntax
+          // (quotes, braces, brackets dropped; ':' -> '/', ',' -> ' '), decoded by the model's ASCII reader, and
+          // compared with the model's own token text for the single-cell view
+          {
+            let norm: String = t4.chars().filter_map(|c| match c { '{' | '}' | '[' | ']' | '"' => None, ':' => Some('/'), ',' => Some(' '), c => Some(c) }).collect();
+            $sink.emit(&format!("ascii_dec {} {} {}", q, w, hex(norm.as_bytes())), &a4.split(' ').take(2).collect::<Vec<_>>().join(" "), nontrivial);
+            if fold.is_none() {
+              let mut canon = String::new();
+              let mut last_depth = false;
+              for tok in norm.split_whitespace() {
+                if tok.ends_with('/') { canon.push_str(tok); last_depth = true; } else { canon.push_str(tok); canon.push(' '); last_depth = false; }
+              }
+              if last_depth { canon.push(' '); }
+              $sink.emit(&format!("json_enc {} {} {} {}", q, w, d, fl), &hex(canon.as_bytes()), nontrivial);
+            }
+          }
           if a4 != expect {
             $sink.impl_failures.push(format!("json-roundtrip: {} u{} depth {} {} fold {:?} -> {}", q, w, d, fl, fold, a4));
           }
